@@ -547,6 +547,32 @@ pub fn replay_flow(case: &Value, rep: &mut Report) {
                     }
                 }
                 if mode == "loop" {
+                    // the forward pass `learn` performs is the same function (no dropout here): with the gradient clamped to
+                    // (0, 0) nothing is updated, and the training loss of one epoch on one sample is the loss of predict(x)
+                    for (acc, _) in eval["predict"].as_object().unwrap() {
+                        net.set_accumulation(nets::accumulation("add"), nets::accumulation(acc));
+                        rep.checks += 1;
+                        let r = guarded(|| {
+                            let y = net.predict(&x);
+                            let mut t = y.clone();
+                            t.add_inplace(&y);
+                            net.set_objective(neurons::objective::Objective::MSE, Some((0.0, 0.0)));
+                            net.set_optimizer(neurons::optimizer::SGD::create(0.1, None));
+                            let want = neurons::objective::Function::create(neurons::objective::Objective::MSE, Some((0.0, 0.0))).loss(&y, &t).0;
+                            let (train, _, _) = net.learn(&vec![&x], &vec![&t], None, 1, 1, None);
+                            (want, train)
+                        });
+                        match r {
+                            Err(_) => rep.count("loop_training_pass_refused", 1),
+                            Ok((want, train)) => {
+                                rep.count("loop_training_passes", 1);
+                                if train.len() != 1 || train[0].to_bits() != want.to_bits() {
+                                    rep.mismatch(prop, "training_forward_pass_differs_from_predict", &id, json!({"accumulation": acc, "loss_of_predict": want, "training_loss": train}), case);
+                                    break;
+                                }
+                            }
+                        }
+                    }
                     // the same network with every bias and the input scaled by 2^-30: all layers are positively homogeneous,
                     // so every accumulation except the product scales with them -- the loop must not behave differently
                     // for values far below any tolerance
